@@ -7,6 +7,8 @@ package linker
 // scanImportsAndExports, the import/export tables of every reachable JS file together with what the linker
 // derived from them (ResolvedExports, SortedAndFilteredExportAliases, ImportsToBind, namespace aliases) and the
 // log messages produced so far. Kernel "exportmatch" feeds the tables to the Lean model (Impl/ExportMatch.lean).
+// Kernel "cjswrap" (Impl/CjsWrap.lean) uses WrapFiles / WrapOpts: what steps 1-2 read and the Wrap / ExportsKind /
+// flags they leave behind.
 
 import (
 	"sort"
@@ -88,6 +90,43 @@ type VerifExportsMsg struct {
 type VerifExportsDump struct {
 	Files []VerifExportsFile // in the order of ReachableFiles, the runtime and non-JS files left out
 	Msgs  []VerifExportsMsg
+
+	// Wrapping decisions (steps 1-2 of scanImportsAndExports, kernel "cjswrap"): every reachable JS file INCLUDING
+	// the runtime, in the order of ReachableFiles, and the options those steps read.
+	WrapFiles []VerifWrapFile
+	WrapOpts  VerifWrapOptions
+}
+
+type VerifWrapRecord struct {
+	Kind         int  // ast.ImportKind
+	Target       int  // record.SourceIndex, -1 = invalid
+	TargetIsJS   bool // the target's Repr is a *graph.JSRepr
+	Star         bool // ast.ContainsImportStar
+	DefaultAlias bool // ast.ContainsDefaultAlias
+}
+
+type VerifWrapFile struct {
+	SourceIndex          int
+	Path                 string
+	IsRuntime            bool // SourceIndex == runtime.SourceIndex
+	IsEntryPoint         bool // file.IsEntryPoint(): user-specified or dynamic-import entry point
+	IsUserEntryPoint     bool // file.IsUserSpecifiedEntryPoint(): member of Link's entryPoints argument
+	HasLazyExport        bool
+	HasExportKeyword     bool // AST.ExportKeyword.Len > 0
+	Records              []VerifWrapRecord
+	ExportStarRecords    []int // AST.ExportStarImportRecords (indices into Records)
+	ExportsKind          int   // results: js_ast.ExportsKind, graph.WrapKind and the flags after scanImportsAndExports
+	Wrap                 int
+	DidWrapDependencies  bool
+	ForceIncludeExports  bool
+	NeedsExportsVariable bool
+}
+
+type VerifWrapOptions struct {
+	OutputFormat  int // config.Format
+	Mode          int // config.Mode
+	CodeSplitting bool
+	HasGlobalName bool // len(options.GlobalName) > 0
 }
 
 var verifExportsObserver func(VerifExportsDump)
@@ -186,6 +225,43 @@ func verifObserveExports(c *linkerContext) {
 		sort.Slice(f.Resolved, func(i, j int) bool { return f.Resolved[i].Alias < f.Resolved[j].Alias })
 		f.SortedAliases = append([]string{}, repr.Meta.SortedAndFilteredExportAliases...)
 		d.Files = append(d.Files, f)
+	}
+	d.WrapOpts = VerifWrapOptions{OutputFormat: int(c.options.OutputFormat), Mode: int(c.options.Mode),
+		CodeSplitting: c.options.CodeSplitting, HasGlobalName: len(c.options.GlobalName) > 0}
+	for _, sourceIndex := range c.graph.ReachableFiles {
+		file := &c.graph.Files[sourceIndex]
+		repr, ok := file.InputFile.Repr.(*graph.JSRepr)
+		if !ok {
+			continue
+		}
+		w := VerifWrapFile{
+			SourceIndex:          int(sourceIndex),
+			Path:                 file.InputFile.Source.PrettyPaths.Rel,
+			IsRuntime:            sourceIndex == runtime.SourceIndex,
+			IsEntryPoint:         file.IsEntryPoint(),
+			IsUserEntryPoint:     file.IsUserSpecifiedEntryPoint(),
+			HasLazyExport:        repr.AST.HasLazyExport,
+			HasExportKeyword:     repr.AST.ExportKeyword.Len > 0,
+			ExportsKind:          int(repr.AST.ExportsKind),
+			Wrap:                 int(repr.Meta.Wrap),
+			DidWrapDependencies:  repr.Meta.DidWrapDependencies,
+			ForceIncludeExports:  repr.Meta.ForceIncludeExportsForEntryPoint,
+			NeedsExportsVariable: repr.Meta.NeedsExportsVariable,
+		}
+		for i := range repr.AST.ImportRecords {
+			record := &repr.AST.ImportRecords[i]
+			wr := VerifWrapRecord{Kind: int(record.Kind), Target: -1,
+				Star: record.Flags.Has(ast.ContainsImportStar), DefaultAlias: record.Flags.Has(ast.ContainsDefaultAlias)}
+			if record.SourceIndex.IsValid() {
+				wr.Target = int(record.SourceIndex.GetIndex())
+				_, wr.TargetIsJS = c.graph.Files[record.SourceIndex.GetIndex()].InputFile.Repr.(*graph.JSRepr)
+			}
+			w.Records = append(w.Records, wr)
+		}
+		for _, importRecordIndex := range repr.AST.ExportStarImportRecords {
+			w.ExportStarRecords = append(w.ExportStarRecords, int(importRecordIndex))
+		}
+		d.WrapFiles = append(d.WrapFiles, w)
 	}
 	for _, m := range c.log.Peek() {
 		vm := VerifExportsMsg{Kind: int(m.Kind), Text: m.Data.Text}
